@@ -461,7 +461,7 @@ where
                     new_paths_v.iter_mut().for_each(|pv| pv.push(u));
                     paths[u] = new_paths_v;
                 }
-            } else if !first_only && vu_dist == seen[u] {
+            } else if !first_only && vu_dist == seen[u] && vu_dist != f64::MAX {
                 push_fringe_node(&mut count, &mut fringe, u, vu_dist);
                 if with_paths {
                     add_u_to_v_paths_and_append_v_paths_to_u_paths(u, v, &mut paths);
@@ -516,7 +516,7 @@ where
             if vu_dist < seen[u] {
                 seen[u] = vu_dist;
                 push_fringe_node(&mut count, &mut fringe, u, vu_dist);
-            } else if vu_dist == seen[u] {
+            } else if vu_dist == seen[u] && vu_dist != f64::MAX {
                 push_fringe_node(&mut count, &mut fringe, u, vu_dist);
             }
         }
